@@ -1,20 +1,56 @@
 #!/usr/bin/env python3
-"""skeleton: regenerate Pdb/Gen/Order.lean from /repo/src/{db,log}.rs.
+"""skeleton: regenerate Pdb/Gen/Order.lean from /repo/src/{db,log,options}.rs.
 
-For a fixed set of functions it extracts, by brace matching and a FIXED marker vocabulary,
-the ORDER of the calls that carry the concurrency / durability protocol.  A marker is a
-regular expression on the whitespace-free, comment-free, string-free text of the function
-body; block markers (`while .. {`, `if .. {`) also emit an `end...` marker at the matching
-closing brace.  Output: one `def <fn> : List Marker` per function, in source order.
+For a fixed set of functions it extracts, from the TOKEN STREAM of the function body
+(tools/rustlex.py: comments dropped, string / char literals blanked, so `'}'`, `"{"`, `// {`
+cannot disturb the brace matching) and a FIXED marker vocabulary, the ORDER and the SCOPES of
+the calls that carry the concurrency / durability protocol.  Output per function:
+
+  def <fn> : List Marker                              markers in source order
+  def <fn>_conds : List (Marker × List (List String))  for every block marker the COMPLETE header
+                                                      (`if C {`, `while C {`, `for P in E {`) in
+                                                      canonical token form, split at the top-level
+                                                      `||` and then `&&`: any change of any conjunct
+                                                      changes the generated term
+  def <fn>_otherCalls : List String                   (strict functions only, see below)
+
+Kinds of markers
+  plain    a regular expression on the canonical text of the body (token texts joined, one space
+           only between two word-like tokens: `let mut x`, `&mut queue`, `bytes as i64`).
+  block    (keyword, key regex[, body-prefix regex]): every `keyword HEADER {` whose canonical header
+           matches the key (and whose block starts with the prefix).  Emits the marker at the keyword,
+           `end<Marker>` at the closing brace of the block, and the header into `<fn>_conds`.
+  guard    a plain marker listed in GUARDS (a `.lock()` / `.read()` / `.write()` expression).  Emits
+           the marker where the lock is taken and the RELEASE marker where the guard is dropped:
+             `let g = E.lock();`     end of the enclosing block, or the first place where `g` is
+             `let mut g = ...`       moved out (`drop(g)`, `f(g, ..)`, `let h = g;`, `S { f: g }`, `return g`;
+                                     arguments of macros are borrowed, not moved), whichever comes first
+             `let _ = E.lock();`     at once (the guard is a temporary dropped at the `;`)
+             `if let P = E.lock().x() {..} else {..}` / `while let` / `match` / `for`
+                                     end of the whole statement (temporaries of a scrutinee live that long)
+             `if C(E.lock()) {`      before the block is entered (end of the condition)
+             anything else           end of the statement (`;`), or of the enclosing block
+           Whatever is not understood errs on the side of the EARLIEST release (`let (g, n) = (E.lock(), 0);`
+           counts as a temporary), so `Ord.held` is never claimed for a lock that is not held; a `let`
+           pattern that is neither `_` nor an identifier is an error.
+  strict   functions with `strict_until = <marker>`: every call or macro invocation before the first
+           occurrence of that marker which is neither covered by a matched marker nor whitelisted as
+           free of side effects on the database directory yields an `otherCall` marker (and its
+           callee text in `<fn>_otherCalls`).
 
 Count classes per (function, marker):  "1" exactly once, "+" at least once, "?" at most once,
-"*" any.  `ONE_OF` groups: exactly one marker of the group must be present.  Anything else is a
-hard error (exit 2); the check driver treats that as a broken obligation.
+"*" any.  `ONE_OF` groups: exactly one marker of the group must be present.  Anything else
+(missing function, duplicate function, count violated, lexer error, unbalanced braces, a guard
+bound in a shape this tool does not know) is a hard error: message + exit 2; the check driver
+treats that as a broken obligation.  The output file is only ever written completely.
 
 The extraction is syntactic and shallow by design: it is one of three ties for the ordering
 properties (with the correspondence runs and the oracle runs), not the only one.
 """
-import re, sys, os
+import re, sys, os, bisect
+
+sys.path.insert(0, os.path.dirname(os.path.abspath(__file__)))
+import rustlex  # noqa: E402
 
 REPO = os.environ.get("PDB_REPO", "/repo")
 OUT = os.path.join(os.path.dirname(os.path.abspath(__file__)), "..", "lean", "Pdb", "Gen")
@@ -24,70 +60,243 @@ class SkeletonError(Exception):
     pass
 
 
-def normalise(src):
-    src = re.sub(r"/\*.*?\*/", "", src, flags=re.S)
-    src = re.sub(r"//[^\n]*", "", src)
-    src = re.sub(r'"(?:\\.|[^"\\])*"', '""', src)      # string literals (format braces!)
-    return src
+# ---------------------------------------------------------------------------- token level
+
+class Body:
+    """tokens of one function body (outer braces excluded) with canonical text and bracket matching"""
+
+    def __init__(self, toks, where):
+        self.toks, self.where = toks, where
+        self.text, self.offs = rustlex.canon(toks)
+        self.match = {}
+        stack, pair = [], {")": "(", "]": "[", "}": "{"}
+        for i, (kind, text, _) in enumerate(toks):
+            if kind != "op":
+                continue
+            if text in "([{":
+                stack.append(i)
+            elif text in ")]}":
+                if not stack or toks[stack[-1]][1] != pair[text]:
+                    raise SkeletonError("%s: unbalanced `%s`" % (where, text))
+                j = stack.pop()
+                self.match[i], self.match[j] = j, i
+        if stack:
+            raise SkeletonError("%s: unclosed `%s`" % (where, toks[stack[-1]][1]))
+
+    def tok_at(self, off):
+        """index of the token that contains canonical offset `off`"""
+        i = bisect.bisect_right(self.offs, off) - 1
+        return max(i, 0)
+
+    def t(self, i):
+        return self.toks[i][1] if 0 <= i < len(self.toks) else ""
+
+    def is_op(self, i, text):
+        return 0 <= i < len(self.toks) and self.toks[i][0] == "op" and self.toks[i][1] == text
+
+    def canon(self, a, b):
+        return rustlex.canon(self.toks[a:b])[0]
+
+    def enclosing_close(self, i):
+        """token index of the `}` closing the innermost block that contains token i (len = body end)"""
+        depth = 0
+        for j in range(i, len(self.toks)):
+            if self.toks[j][0] != "op":
+                continue
+            x = self.toks[j][1]
+            if x == "{":
+                depth += 1
+            elif x == "}":
+                if depth == 0:
+                    return j
+                depth -= 1
+        return len(self.toks)
+
+    def in_macro(self, i):
+        """token i is a direct argument of a macro invocation `name!( .. )` (format arguments are borrowed)"""
+        depth = 0
+        for j in range(i - 1, -1, -1):
+            if self.toks[j][0] != "op":
+                continue
+            x = self.toks[j][1]
+            if x in (")", "]", "}"):
+                depth += 1
+            elif x in ("(", "[", "{"):
+                if depth == 0:
+                    return self.is_op(j - 1, "!")
+                depth -= 1
+        return False
+
+    def stmt_start(self, i):
+        """index of the first token of the statement (or match arm / block tail) containing token i"""
+        j = i - 1
+        while j >= 0:
+            kind, x, _ = self.toks[j]
+            if kind == "op":
+                if x in (")", "]"):
+                    j = self.match[j] - 1
+                    continue
+                if x in (";", "{", "}", "=>"):
+                    return j + 1
+            j -= 1
+        return 0
+
+    def header_end(self, kw):
+        """for a keyword token `if` / `while` / `for` / `match`: index of the `{` opening its block, or None
+        (match guard `if c =>`, or no block)"""
+        j = kw + 1
+        while j < len(self.toks):
+            kind, x, _ = self.toks[j]
+            if kind == "op":
+                if x in ("(", "["):
+                    j = self.match[j] + 1
+                    continue
+                if x == "{":
+                    return j
+                if x in (";", "=>", "}", ")", "]"):
+                    return None
+            j += 1
+        return None
+
+    def chain_end(self, open_brace):
+        """index of the `}` that ends an if / else-if / else chain whose first block opens at open_brace"""
+        close = self.match[open_brace]
+        while self.t(close + 1) == "else":
+            if self.t(close + 2) == "if":
+                ob = self.header_end(close + 2)
+                if ob is None:
+                    raise SkeletonError("%s: `else if` without a block" % self.where)
+            elif self.is_op(close + 2, "{"):
+                ob = close + 2
+            else:
+                raise SkeletonError("%s: `else` without a block" % self.where)
+            close = self.match[ob]
+        return close
+
+    def stmt_end(self, i, arm):
+        """index of the token ending the statement that contains token i: the `;` (or, in a match arm, the
+        `,`) at nesting depth 0, else the `}` of the enclosing block"""
+        j = i
+        while j < len(self.toks):
+            kind, x, _ = self.toks[j]
+            if kind == "op":
+                if x in ("(", "[", "{"):
+                    j = self.match[j] + 1
+                    continue
+                if x == ";" or (arm and x == ","):
+                    return j
+                if x in ("}", ")", "]"):
+                    return j
+            j += 1
+        return len(self.toks)
 
 
-def block_from(src, i):
-    assert src[i] == "{"
-    depth, j = 0, i
-    while j < len(src):
-        if src[j] == "{":
-            depth += 1
-        elif src[j] == "}":
-            depth -= 1
-            if depth == 0:
-                return j
+def split_header(body, a, b):
+    """canonical header tokens[a:b] split at top-level `||`, each part at top-level `&&`"""
+    first = body.t(a)
+    if first in ("let", "for") or body.toks[a - 1][1] == "for":
+        return [[body.canon(a, b)]]
+    out, cur, part, depth = [], [], a, 0
+    j = a
+    while j < b:
+        kind, x, _ = body.toks[j]
+        if kind == "op":
+            if x in ("(", "[", "{"):
+                j = body.match[j] + 1
+                continue
+            if x in ("&&", "||"):
+                cur.append(body.canon(part, j))
+                part = j + 1
+                if x == "||":
+                    out.append(cur)
+                    cur = []
         j += 1
-    raise SkeletonError("unbalanced braces")
+    cur.append(body.canon(part, b))
+    out.append(cur)
+    return out
 
 
-def fn_body(src, impl, name):
-    """Body text (without outer braces) of `fn name` inside an `impl <impl>` block."""
-    pat = r"\bimpl(?:<[^>]*>)?\s+%s\b[^{;]*\{" % re.escape(impl)
-    for m in re.finditer(pat, src):
-        end = block_from(src, m.end() - 1)
-        blk = src[m.end() - 1:end + 1]
-        f = re.search(r"\bfn\s+%s\s*(?:<[^>]*>)?\s*\(" % re.escape(name), blk)
-        if f:
-            b = blk.index("{", f.end())
-            # skip the parameter list / return type: first `{` after the closing `)` of params
-            depth, k = 0, f.end() - 1
-            while True:
-                if blk[k] == "(":
-                    depth += 1
-                elif blk[k] == ")":
-                    depth -= 1
-                    if depth == 0:
-                        break
+def fn_body(toks, src_name, impl, name):
+    """tokens of the body of the unique `fn name` directly inside an `impl <impl>` block"""
+    n = len(toks)
+    match, stack = {}, []
+    for i, (kind, text, _) in enumerate(toks):
+        if kind == "op" and text in "([{":
+            stack.append(i)
+        elif kind == "op" and text in ")]}":
+            j = stack.pop()
+            match[j] = i
+    found = []
+    i = 0
+    while i < n:
+        if toks[i][0] == "id" and toks[i][1] == "impl":
+            j = i + 1
+            if toks[j][1] == "<":                       # impl<generics>
+                depth = 0
+                while True:
+                    if toks[j][1] == "<":
+                        depth += 1
+                    elif toks[j][1] == ">":
+                        depth -= 1
+                        if depth == 0:
+                            break
+                    elif toks[j][1] == ">>":
+                        depth -= 2
+                        if depth <= 0:
+                            break
+                    j += 1
+                j += 1
+            k = j
+            while not (toks[k][0] == "op" and toks[k][1] in ("{", ";")):
                 k += 1
-            b = blk.index("{", k)
-            e = block_from(blk, b)
-            return re.sub(r"\s+", "", blk[b + 1:e])
-    raise SkeletonError("fn %s::%s not found" % (impl, name))
+            header = [t[1] for t in toks[j:k]]
+            if toks[k][1] == "{" and header and header[0] == impl and "for" not in header:
+                close = match[k]
+                p = k + 1
+                while p < close:                         # items at depth 1 of the impl block
+                    kind, text, _ = toks[p]
+                    if kind == "op" and text in "([{":
+                        p = match[p] + 1
+                        continue
+                    if kind == "id" and text == "fn" and toks[p + 1][1] == name:
+                        q = p + 2
+                        while not (toks[q][0] == "op" and toks[q][1] == "("):
+                            q += 1
+                        q = match[q] + 1
+                        while not (toks[q][0] == "op" and toks[q][1] in ("{", ";")):
+                            q += 1
+                        if toks[q][1] == "{":
+                            found.append(toks[q + 1:match[q]])
+                            p = match[q] + 1
+                            continue
+                    p += 1
+                i = close + 1
+                continue
+        i += 1
+    if len(found) != 1:
+        raise SkeletonError("%s: fn %s::%s expected exactly once, found %d time(s)" % (src_name, impl, name, len(found)))
+    return found[0]
 
 
-SELF = r"(?:self|db)"
+# ---------------------------------------------------------------------------- vocabulary
+
+SELF = r"\b(?:self|db)"
 LOAD = r"\.shutdown\.load\([^()]*\)"
 
-# marker -> regex.  A regex ending in `\{` is a block marker.
+# marker -> regex on the canonical text (plain) | (keyword, key regex on the header[, regex on the block start])
 M = {
     # WaitCondvar
     "lockWork": r"self\.work\.lock\(\)",
     "setWork": r"\*work=true",
     "notifyOne": r"self\.cv\.notify_one\(\)",
-    "unlockWork": r"drop\(work\)",
-    "whileNotWork": r"while!\*work\{",
-    "cvWait": r"self\.cv\.wait\(&mutwork\)",
+    "whileNotWork": ("while", r"^!\*work$"),
+    "cvWait": r"self\.cv\.wait\(&mut work\)",
     "clearWork": r"\*work=false",
     # DbInner::open
     "createDirAll": r"create_dir_all\(",
     "isDirCheck": r"\.is_dir\(\)",
     "metadataExists": r"\.join\(\"\"\)\.exists\(\)",      # existence probe only (string literals are blanked)
-    "createLockFile": r"OpenOptions::new\(\)\.create\(true\)[^;]*?\.open\(lock_path",
+    "createLockFile": r"OpenOptions::new\(\)\.create\(true\)[^;]*?\.open\(lock_path\.as_path\(\)\)",
     "tryLock": r"\.try_lock_exclusive\(\)",
     "returnLocked": r"\.map_err\(Error::Locked\)\?",
     "loadMetadata": r"\.load_and_validate_metadata\(",
@@ -95,20 +304,22 @@ M = {
     "columnOpen": r"Column::open\(",
     # commit queue
     "lockQueue": SELF + r"\.commit_queue\.lock\(\)",
-    "ifQueueFull": r"if[^{};]*queue\.bytes>MAX_COMMIT_QUEUE_BYTES[^{};]*\{",
-    "whileQueueFull": r"while[^{};]*queue\.bytes>MAX_COMMIT_QUEUE_BYTES[^{};]*\{",
-    "waitQueueFull": r"self\.commit_queue_full_cv\.wait\(&mutqueue\)",
+    "ifQueueFull": ("if", r"queue\.bytes>MAX_COMMIT_QUEUE_BYTES"),
+    "whileQueueFull": ("while", r"queue\.bytes>MAX_COMMIT_QUEUE_BYTES"),
+    "waitQueueFull": r"self\.commit_queue_full_cv\.wait\(&mut queue\)",
     "checkBgErr": r"self\.bg_err\.lock\(\)",
     "lockOverlayWrite": r"self\.commit_overlay\.write\(\)",
     "copyToOverlay": r"\.copy_to_overlay\(",
     "pushQueue": r"queue\.commits\.push_back\(commit\)",
     "signalLogWorker": SELF + r"\.log_worker_wait\.signal\(\)",
     # process_commits
+    "ifMightWait": ("if", r"^might_wait_because_the_queue_is_full$"),
     "lockLogQueue": SELF + r"\.log_queue_wait\.work\.lock\(\)",
-    "ifLogQueueFull": r"if!self" + LOAD + r"&&\*queue>MAX_LOG_QUEUE_BYTES\{",
-    "whileLogQueueFull": r"while!self" + LOAD + r"&&\*queue>MAX_LOG_QUEUE_BYTES\{",
-    "waitLogQueue": r"self\.log_queue_wait\.cv\.wait\(&mutqueue\)",
+    "ifLogQueueFull": ("if", r"\*queue>MAX_LOG_QUEUE_BYTES"),
+    "whileLogQueueFull": ("while", r"\*queue>MAX_LOG_QUEUE_BYTES"),
+    "waitLogQueue": r"self\.log_queue_wait\.cv\.wait\(&mut queue\)",
     "popQueue": r"queue\.commits\.pop_front\(\)",
+    "ifCommitWake": ("if", r"queue\.bytes<=MAX_COMMIT_QUEUE_BYTES"),
     "notifyAllQueueFull": r"self\.commit_queue_full_cv\.notify_all\(\)",
     "deferCommit": r"self\.defer_commit\(",
     "beginRecord": r"self\.log\.begin_record\(\)",
@@ -129,21 +340,27 @@ M = {
     "storeLastEnacted": r"self\.last_enacted\.store\(",
     "endRead": r"self\.log\.end_read\(",
     "subLoggedBytes": r"\*queue-=",
+    "ifLogWake": ("if", r"\*queue<=MAX_LOG_QUEUE_BYTES"),
     "notifyLogQueue": r"self\.log_queue_wait\.cv\.notify_(?:one|all)\(\)",
-    "whileDirtyOverMax": r"while[^{};]*self\.log\.num_dirty_logs\(\)>max_logs[^{};]*\{",
+    "whileDirtyOverMax": ("while", r"self\.log\.num_dirty_logs\(\)>max_logs"),
     "checkShutdown": SELF + LOAD,
     "waitCleanupQueue": r"self\.cleanup_queue_wait\.wait\(\)",
     # flush / clean / kill
     "flushOne": r"self\.log\.flush_one\(",
     "signalCommitWorker": SELF + r"\.commit_worker_wait\.signal\(\)",
     "numDirtyLogs": r"self\.log\.num_dirty_logs\(\)",
-    "ifSyncData": r"ifself\.options\.sync_data(?=\{for)\{",
+    "ifOverKeep": ("if", r"^num_cleanup>keep_logs$"),
+    "ifSyncData": ("if", r"^self\.options\.sync_data$", r"^for\b"),
     "flushColumn": r"\bc\.flush\(\)\?",
     "callLogCleanLogs": r"self\.log\.clean_logs\(",
     "signalCleanupQueue": SELF + r"\.cleanup_queue_wait\.signal\(\)",
-    "callEnactLogs": SELF + r"\.enact_logs\(false\)",
+    "ifBgErrStored": ("if", r"^let Some\(\w+\)=self\.bg_err\.lock\(\)\.as_ref\(\)$"),
+    "returnOk": r"return Ok\(\(\)\)",
+    "loopEnactLogs": r"while " + SELF + r"\.enact_logs\(false\)\?\{\}",
+    "callEnactLogs": r"(?<!while )" + SELF + r"\.enact_logs\(false\)",
     "callFlushLogs": SELF + r"\.flush_logs\(",
-    "callProcessCommits": SELF + r"\.process_commits\(",
+    "loopProcessCommits": r"while " + SELF + r"\.process_commits\(db\)\?\{\}",
+    "callProcessCommits": r"(?<!while )" + SELF + r"\.process_commits\(",
     "callProcessReindex": SELF + r"\.process_reindex\(\)",
     "callCleanLogs": SELF + r"\.clean_logs\(\)",
     "callCleanAllLogs": r"\.clean_all_logs\(\)",
@@ -151,6 +368,7 @@ M = {
     # shutdown / store_err
     "storeShutdown": r"self\.shutdown\.store\(true",
     "signalCleanupWorker": SELF + r"\.cleanup_worker_wait\.signal\(\)",
+    "ifErrNone": ("if", r"^err\.is_none\(\)$"),
     "setBgErr": r"\*err=Some\(",
     "callShutdown": r"self(?:\.inner)?\.shutdown\(\)",
     # open_inner / drop_inner
@@ -161,106 +379,190 @@ M = {
     "spawnFlushWorker": r"Self::flush_worker\(",
     "spawnLogWorker": r"Self::log_worker\(",
     "spawnCleanupWorker": r"Self::cleanup_worker\(",
-    "joinLog": r"self\.log_thread\.take\(\)\{ifletErr\(\w+\)=t\.join\(\)",
-    "joinFlush": r"self\.flush_thread\.take\(\)\{ifletErr\(\w+\)=t\.join\(\)",
-    "joinCommit": r"self\.commit_thread\.take\(\)\{ifletErr\(\w+\)=t\.join\(\)",
-    "joinCleanup": r"self\.cleanup_thread\.take\(\)\{ifletErr\(\w+\)=t\.join\(\)",
+    "joinLog": r"self\.log_thread\.take\(\)\{(?:if let Err\(\w+\)=|let _=)?t\.join\(\)",
+    "joinFlush": r"self\.flush_thread\.take\(\)\{(?:if let Err\(\w+\)=|let _=)?t\.join\(\)",
+    "joinCommit": r"self\.commit_thread\.take\(\)\{(?:if let Err\(\w+\)=|let _=)?t\.join\(\)",
+    "joinCleanup": r"self\.cleanup_thread\.take\(\)\{(?:if let Err\(\w+\)=|let _=)?t\.join\(\)",
     "callKillLogs": r"self\.inner\.kill_logs\(",
     "unlockFile": r"\.lock_file\.unlock\(\)",
     # worker loops
-    "whileRunning": r"while!db" + LOAD + r"(?:\|\|more_\w+)?\{",
-    "ifIdle": r"if!more_\w+(?:&&!more_\w+)?\{",
+    "whileRunning": ("while", r"db" + LOAD),
+    "ifIdle": ("if", r"^!more_\w+"),
+    "ifNoLogFiles": ("if", r"db\.log\.has_log_files_to_read\(\)"),
     "hasLogFilesToRead": r"db\.log\.has_log_files_to_read\(\)",
     "waitCommitWorker": r"db\.commit_worker_wait\.wait\(\)",
     "waitLogWorker": r"db\.log_worker_wait\.wait\(\)",
     "waitFlushWorker": r"db\.flush_worker_wait\.wait\(\)",
     "waitCleanupWorker": r"db\.cleanup_worker_wait\.wait\(\)",
+    # reads (C05)
+    "lockOverlayRead": r"self\.commit_overlay\.read\(\)",
+    "overlayLookup": r"overlay\.get\(col as usize\)\.and_then\(",
+    "logOverlays": r"self\.log\.overlays\(\)",
+    "columnLookup": r"column\.(?:get|get_size|get_value|with_locked)\(",
+    # commit_changes (C08)
+    "collectTx": r"tx\.into_iter\(\)\.collect\(\)",
+    "forValidate": ("for", r"\bin tx\.iter\(\)$"),
+    "validateChange": r"self\.validate_change\(\*?col,&?change\)\?",
+    "ifBgErrSet": ("if", r"^let Some\(\w+\)=&\*bg_err$"),
+    "returnBackground": r"return Err\(Error::Background\(",
+    "forApply": ("for", r"\bin tx(?:\.into_iter\(\))?$"),
+    "claimTreeValues": r"\.claim_tree_values\(",
+    "lockTreesRead": r"self\.trees\.read\(\)",
+    "lockTreesWrite": r"self\.trees\.write\(\)",
+    "bumpToDereference": r"\.to_dereference\.insert\(",
+    "pushChange": r"\.push\((?:change|root_operation),",
+    "pushNodeChange": r"\.push_node_change\(",
+    "callCommitRaw": r"self\.commit_raw\(commit\)",
+    # Options::load_and_validate_metadata (C17)
+    "loadMetadataFile": r"Self::load_metadata\(&self\.path\)\?",
+    "ifColumnCountDiffers": ("if", r"^meta\.columns\.len\(\)!=self\.columns\.len\(\)$"),
+    "forEachColumn": ("for", r"meta\.columns\.len\(\)$"),
+    "ifColumnDiffers": ("if", r"^meta\.columns\[c\]!=self\.columns\[c\]$"),
+    "returnIncompatible": r"return Err\(Error::IncompatibleColumnConfig\{",
+    "writeMetadata": r"self\.write_metadata\(",
     # Log
     "takeAppending": r"self\.appending\.write\(\)\.take\(\)",
-    "ifSync": r"ifself\.sync\{",
+    "ifSync": ("if", r"^self\.sync$"),
     "syncData": r"\.sync_data\(\)",
     "pushReadQueue": r"self\.read_queue\.write\(\)\.push_back\(",
+    "lockCleanupQueue": r"self\.cleanup_queue\.write\(\)",
     "drainCleanupQueue": r"queue\.drain\(",
+    "whilePending": ("while", r"^let Some\(\(id,mut file\)\)=pending\.pop_front\(\)$"),
     "truncateLog": r"file\.set_len\(0\)",
     "syncAll": r"file\.sync_all\(\)",
+    "pushCleaned": r"cleaned\.push\(\(id,file\)\)",
+    "requeueFailed": r"pending\.push_front\(\(id,file\)\)",
+    "breakLoop": r"\bbreak\b",
+    "ifPendingLeft": ("if", r"^!pending\.is_empty\(\)$"),
+    "whileRequeue": ("while", r"^let Some\(entry\)=pending\.pop_back\(\)$"),
+    "requeueFront": r"queue\.push_front\(entry\)",
+    "lockLogPool": r"self\.log_pool\.write\(\)",
     "extendPool": r"pool\.extend\(cleaned\)",
     "dropLog": r"self\.drop_log\(",
+    "propagateResult": r"\bresult\?",
     "lockAppending": r"self\.appending\.write\(\)",
     "flushToFile": r"\.flush_to_file\(",
+    "retireAppending": r"appending\.take\(\)",
+    "returnErr": r"return Err\(e\)",
     "lockOverlays": r"self\.overlays\.write\(\)",
     "extendOverlay": r"\.map\.extend\(",
     "setDirty": r"self\.dirty\.store\(true",
     "removeOverlayEntry": r"e\.remove_entry\(\)",
+    # strict functions
+    "otherCall": None,
 }
 
-# (lean name, file, impl, fn, [(marker, count)], [one-of groups])
+# guard marker -> release marker
+GUARDS = {
+    "lockWork": "unlockWork", "lockQueue": "unlockQueue", "checkBgErr": "releaseBgErr",
+    "lockOverlayWrite": "unlockOverlayWrite", "lockOverlayRead": "unlockOverlayRead",
+    "lockLogQueue": "unlockLogQueue", "lockIteration": "unlockIteration",
+    "lockTreesRead": "unlockTreesRead", "lockTreesWrite": "unlockTreesWrite",
+    "lockCleanupQueue": "unlockCleanupQueue", "lockLogPool": "unlockLogPool",
+    "lockAppending": "unlockAppending", "lockOverlays": "unlockOverlays",
+}
+
+# callees that do not touch the database directory (strict functions)
+FREE_CALLS = {
+    "try_io!", "assert!", "Err", "Ok", "Some", "log::debug!", "log::trace!", "log::info!", "log::warn!",
+    "options.path.clone", "options.path.join", "lock_path.push", "lock_path.as_path", "options.is_valid",
+}
+
+KEYWORDS = {"if", "while", "for", "match", "return", "loop", "in", "let", "else", "move", "as", "break", "continue",
+            "fn", "impl", "mut", "ref", "where", "unsafe", "async", "await", "dyn", "pub", "use", "mod", "struct",
+            "enum", "trait", "type", "const", "static", "crate", "super"}
+
+# (lean name, file, impl, fn, [(marker, count)], [one-of groups], options)
 FUNCS = [
     ("signal", "src/db.rs", "WaitCondvar", "signal",
-     [("lockWork", "1"), ("setWork", "1"), ("notifyOne", "1"), ("unlockWork", "?")], []),
+     [("lockWork", "1"), ("setWork", "1"), ("notifyOne", "1")], [], {}),
     ("wait", "src/db.rs", "WaitCondvar", "wait",
-     [("lockWork", "1"), ("whileNotWork", "1"), ("cvWait", "1"), ("clearWork", "1")], []),
+     [("lockWork", "1"), ("whileNotWork", "1"), ("cvWait", "1"), ("clearWork", "1")], [], {}),
     ("dbOpen", "src/db.rs", "DbInner", "open",
      [("createDirAll", "1"), ("isDirCheck", "1"), ("metadataExists", "?"), ("createLockFile", "1"), ("tryLock", "1"),
-      ("returnLocked", "1"), ("loadMetadata", "1"), ("logOpen", "1"), ("columnOpen", "1")], []),
+      ("returnLocked", "1"), ("loadMetadata", "1"), ("logOpen", "1"), ("columnOpen", "1")], [],
+     {"strict_until": "tryLock"}),
+    ("dbGet", "src/db.rs", "DbInner", "get",
+     [("lockOverlayRead", "+"), ("overlayLookup", "+"), ("logOverlays", "*"), ("columnLookup", "+")], [], {}),
+    ("dbGetSize", "src/db.rs", "DbInner", "get_size",
+     [("lockOverlayRead", "+"), ("overlayLookup", "+"), ("logOverlays", "*"), ("columnLookup", "+")], [], {}),
+    ("dbGetNode", "src/db.rs", "DbInner", "get_node",
+     [("lockOverlayRead", "+"), ("overlayLookup", "+"), ("logOverlays", "*"), ("columnLookup", "+")], [], {}),
+    ("dbGetNodeChildren", "src/db.rs", "DbInner", "get_node_children",
+     [("lockOverlayRead", "+"), ("overlayLookup", "+"), ("logOverlays", "*"), ("columnLookup", "+")], [], {}),
+    ("commitChanges", "src/db.rs", "DbInner", "commit_changes",
+     [("collectTx", "?"), ("forValidate", "*"), ("validateChange", "*"), ("checkBgErr", "*"), ("ifBgErrSet", "*"),
+      ("returnBackground", "*"), ("forApply", "1"), ("claimTreeValues", "+"), ("lockTreesRead", "*"),
+      ("lockTreesWrite", "+"), ("bumpToDereference", "+"), ("pushChange", "+"), ("pushNodeChange", "+"),
+      ("callCommitRaw", "1")], [], {}),
     ("commitRaw", "src/db.rs", "DbInner", "commit_raw",
      [("lockQueue", "1"), ("ifQueueFull", "?"), ("whileQueueFull", "?"), ("waitQueueFull", "1"),
-      ("checkBgErr", "+"), ("lockOverlayWrite", "1"), ("copyToOverlay", "+"), ("pushQueue", "1"),
-      ("signalLogWorker", "1")], [("ifQueueFull", "whileQueueFull")]),
+      ("checkBgErr", "+"), ("ifBgErrSet", "*"), ("returnBackground", "*"), ("lockOverlayWrite", "1"),
+      ("copyToOverlay", "+"), ("pushQueue", "1"), ("signalLogWorker", "1")],
+     [("ifQueueFull", "whileQueueFull")], {}),
     ("processCommits", "src/db.rs", "DbInner", "process_commits",
-     [("lockLogQueue", "+"), ("ifLogQueueFull", "?"), ("whileLogQueueFull", "?"), ("waitLogQueue", "1"),
-      ("lockQueue", "+"), ("popQueue", "1"), ("notifyAllQueueFull", "1"), ("deferCommit", "1"),
+     [("ifMightWait", "?"), ("lockLogQueue", "+"), ("ifLogQueueFull", "?"), ("whileLogQueueFull", "?"),
+      ("waitLogQueue", "1"),
+      ("lockQueue", "+"), ("popQueue", "1"), ("ifCommitWake", "?"), ("notifyAllQueueFull", "1"), ("deferCommit", "1"),
       ("beginRecord", "1"), ("writePlan", "+"), ("completePlan", "1"), ("endRecord", "1"),
       ("addLoggedBytes", "1"), ("signalFlushWorker", "1"), ("lockOverlayWrite", "1"),
-      ("cleanOverlay", "+"), ("startReindex", "1")], [("ifLogQueueFull", "whileLogQueueFull")]),
+      ("cleanOverlay", "+"), ("startReindex", "1")], [("ifLogQueueFull", "whileLogQueueFull")], {}),
     ("enactLogs", "src/db.rs", "DbInner", "enact_logs",
      [("lockIteration", "1"), ("readNext", "1"), ("clearReplayLogs", "*"), ("validatePlan", "*"),
       ("enactPlan", "+"), ("dropIndex", "1"), ("storeLastEnacted", "1"), ("endRead", "1"),
-      ("lockLogQueue", "1"), ("subLoggedBytes", "1"), ("notifyLogQueue", "1"),
-      ("whileDirtyOverMax", "1"), ("checkShutdown", "?"), ("waitCleanupQueue", "1")], []),
+      ("lockLogQueue", "1"), ("subLoggedBytes", "1"), ("ifLogWake", "?"), ("notifyLogQueue", "1"),
+      ("whileDirtyOverMax", "1"), ("checkShutdown", "?"), ("waitCleanupQueue", "1")], [], {}),
     ("flushLogs", "src/db.rs", "DbInner", "flush_logs",
-     [("flushOne", "1"), ("signalCommitWorker", "1")], []),
+     [("flushOne", "1"), ("signalCommitWorker", "1")], [], {}),
     ("cleanLogs", "src/db.rs", "DbInner", "clean_logs",
-     [("numDirtyLogs", "1"), ("ifSyncData", "1"), ("flushColumn", "1"), ("callLogCleanLogs", "1"),
-      ("signalCleanupQueue", "1")], []),
+     [("numDirtyLogs", "+"), ("ifOverKeep", "?"), ("ifSyncData", "?"), ("flushColumn", "+"), ("callLogCleanLogs", "1"),
+      ("signalCleanupQueue", "1")], [], {}),
     ("cleanAllLogs", "src/db.rs", "DbInner", "clean_all_logs",
-     [("flushColumn", "1"), ("numDirtyLogs", "1"), ("callLogCleanLogs", "1")], []),
+     [("flushColumn", "1"), ("numDirtyLogs", "1"), ("callLogCleanLogs", "1")], [], {}),
     ("killLogs", "src/db.rs", "DbInner", "kill_logs",
-     [("checkBgErr", "1"), ("callLogCleanLogs", "1"), ("callEnactLogs", "+"), ("callFlushLogs", "+"),
-      ("callProcessCommits", "1"), ("callCleanAllLogs", "1"), ("callLogKillLogs", "1")], []),
+     [("ifBgErrStored", "?"), ("checkBgErr", "1"), ("ifSyncData", "*"), ("flushColumn", "*"), ("numDirtyLogs", "*"),
+      ("callLogCleanLogs", "1"), ("returnOk", "*"), ("loopEnactLogs", "*"), ("callEnactLogs", "*"),
+      ("callFlushLogs", "+"), ("loopProcessCommits", "*"), ("callProcessCommits", "*"), ("callCleanAllLogs", "1"),
+      ("callLogKillLogs", "1")], [], {}),
     ("shutdown", "src/db.rs", "DbInner", "shutdown",
      [("storeShutdown", "1"), ("lockLogQueue", "?"), ("notifyLogQueue", "1"), ("signalFlushWorker", "1"),
       ("signalLogWorker", "1"), ("signalCommitWorker", "1"), ("signalCleanupWorker", "1"),
-      ("signalCleanupQueue", "?")], []),
+      ("signalCleanupQueue", "?")], [], {}),
     ("storeErr", "src/db.rs", "DbInner", "store_err",
-     [("checkBgErr", "1"), ("setBgErr", "1"), ("callShutdown", "1"), ("lockQueue", "?"),
-      ("notifyAllQueueFull", "1")], []),
+     [("checkBgErr", "1"), ("ifErrNone", "?"), ("setBgErr", "1"), ("callShutdown", "1"), ("lockQueue", "?"),
+      ("notifyAllQueueFull", "1")], [], {}),
     ("openInner", "src/db.rs", "Db", "open_inner",
      [("dbInnerOpen", "1"), ("replayAllLogs", "1"), ("clearReplayLogs", "1"), ("callCleanAllLogs", "1"),
       ("callLogKillLogs", "1"), ("initTableData", "1"), ("spawnCommitWorker", "1"), ("spawnFlushWorker", "1"),
-      ("spawnLogWorker", "1"), ("spawnCleanupWorker", "1")], []),
+      ("spawnLogWorker", "1"), ("spawnCleanupWorker", "1")], [], {"strict_until": "dbInnerOpen"}),
     ("dropInner", "src/db.rs", "Db", "drop_inner",
      [("callShutdown", "1"), ("joinLog", "1"), ("joinFlush", "1"), ("joinCommit", "1"),
-      ("joinCleanup", "1"), ("callKillLogs", "1"), ("unlockFile", "1")], []),
+      ("joinCleanup", "1"), ("callKillLogs", "1"), ("unlockFile", "1")], [], {}),
     ("commitWorker", "src/db.rs", "Db", "commit_worker",
-     [("whileRunning", "1"), ("ifIdle", "1"), ("signalCleanupWorker", "1"), ("hasLogFilesToRead", "1"),
-      ("waitCommitWorker", "1"), ("callEnactLogs", "1")], []),
+     [("whileRunning", "1"), ("ifIdle", "1"), ("signalCleanupWorker", "1"), ("ifNoLogFiles", "?"),
+      ("hasLogFilesToRead", "1"), ("waitCommitWorker", "1"), ("callEnactLogs", "1")], [], {}),
     ("logWorker", "src/db.rs", "Db", "log_worker",
      [("callProcessReindex", "+"), ("whileRunning", "1"), ("ifIdle", "1"), ("waitLogWorker", "1"),
-      ("callProcessCommits", "1")], []),
+      ("callProcessCommits", "1")], [], {}),
     ("flushWorker", "src/db.rs", "Db", "flush_worker",
-     [("whileRunning", "1"), ("ifIdle", "1"), ("waitFlushWorker", "1"), ("callFlushLogs", "1")], []),
+     [("whileRunning", "1"), ("ifIdle", "1"), ("waitFlushWorker", "1"), ("callFlushLogs", "1")], [], {}),
     ("cleanupWorker", "src/db.rs", "Db", "cleanup_worker",
-     [("whileRunning", "1"), ("ifIdle", "1"), ("waitCleanupWorker", "1"), ("callCleanLogs", "1")], []),
+     [("whileRunning", "1"), ("ifIdle", "1"), ("waitCleanupWorker", "1"), ("callCleanLogs", "1")], [], {}),
+    ("loadAndValidateMetadata", "src/options.rs", "Options", "load_and_validate_metadata",
+     [("loadMetadataFile", "1"), ("ifColumnCountDiffers", "?"), ("forEachColumn", "?"), ("ifColumnDiffers", "?"),
+      ("returnIncompatible", "?"), ("writeMetadata", "1")], [], {}),
     ("logFlushOne", "src/log.rs", "Log", "flush_one",
-     [("takeAppending", "1"), ("ifSync", "1"), ("syncData", "1"), ("pushReadQueue", "1")], []),
+     [("takeAppending", "1"), ("ifSync", "1"), ("syncData", "1"), ("pushReadQueue", "1")], [], {}),
     ("logCleanLogs", "src/log.rs", "Log", "clean_logs",
-     [("drainCleanupQueue", "1"), ("truncateLog", "1"), ("syncAll", "1"), ("extendPool", "1"),
-      ("dropLog", "1")], []),
+     [("lockCleanupQueue", "+"), ("drainCleanupQueue", "1"), ("whilePending", "?"), ("truncateLog", "1"),
+      ("syncAll", "1"), ("pushCleaned", "?"), ("requeueFailed", "?"), ("breakLoop", "*"), ("ifPendingLeft", "?"),
+      ("whileRequeue", "?"), ("requeueFront", "?"), ("lockLogPool", "1"), ("extendPool", "1"), ("dropLog", "1"),
+      ("propagateResult", "?")], [], {}),
     ("logEndRecord", "src/log.rs", "Log", "end_record",
-     [("lockAppending", "1"), ("flushToFile", "1"), ("lockOverlays", "1"), ("extendOverlay", "+"),
-      ("setDirty", "1")], []),
+     [("lockAppending", "1"), ("flushToFile", "1"), ("retireAppending", "?"), ("returnErr", "?"),
+      ("lockOverlays", "1"), ("extendOverlay", "+"), ("setDirty", "1")], [], {}),
     ("logEndRead", "src/log.rs", "Log", "end_read",
-     [("lockOverlays", "1"), ("removeOverlayEntry", "+")], []),
+     [("lockOverlays", "1"), ("removeOverlayEntry", "+")], [], {}),
 ]
 
 
@@ -268,26 +570,177 @@ def end_name(m):
     return "end" + m[0].upper() + m[1:]
 
 
-def extract(body, spec, oneof, where):
-    found = []
+def is_block(m):
+    return isinstance(M[m], tuple)
+
+
+# ---------------------------------------------------------------------------- extraction
+
+START, RELEASE, END = 2, 0, 1        # sort rank at equal positions: releases, then block ends, then new markers
+
+
+def block_hits(body, marker):
+    """[(keyword token index, `{` token index)] of the blocks selected by block marker `marker`"""
+    spec = M[marker]
+    kw, key = spec[0], re.compile(spec[1])
+    prefix = re.compile(spec[2]) if len(spec) > 2 else None
+    hits = []
+    for i, (kind, text, _) in enumerate(body.toks):
+        if kind != "id" or text != kw:
+            continue
+        ob = body.header_end(i)
+        if ob is None or ob == i + 1:
+            continue
+        if not key.search(body.canon(i + 1, ob)):
+            continue
+        if prefix is not None and not prefix.search(body.canon(ob + 1, body.match[ob])):
+            continue
+        hits.append((i, ob))
+    return hits
+
+
+def guard_release(body, marker, s_tok, e_tok):
+    """token index at which the guard created by tokens [s_tok, e_tok] (a `.lock()` expression) is released;
+    returns (token index, before): the release marker sorts before (True) the token's own markers"""
+    where = "%s: guard %s" % (body.where, marker)
+    st = body.stmt_start(s_tok)
+    arm = st > 0 and body.is_op(st - 1, "=>")
+    while body.is_op(st, "#") and body.is_op(st + 1, "["):         # attributes
+        st = body.match[st + 1] + 1
+    if body.t(st) == "else":
+        st += 1
+    head = body.t(st)
+    if head == "let":
+        # pattern up to the `=` at depth 0
+        j = st + 1
+        while j < s_tok and not body.is_op(j, "="):
+            if body.toks[j][0] == "op" and body.toks[j][1] in ("(", "[", "{"):
+                j = body.match[j]
+            j += 1
+        if j >= s_tok:
+            raise SkeletonError("%s: cannot find the `=` of the `let`" % where)
+        direct = (j + 1 == s_tok) and body.is_op(e_tok + 1, ";")
+        if direct:
+            pat = [t[1] for t in body.toks[st + 1:j]]
+            if ":" in pat:
+                pat = pat[:pat.index(":")]
+            if pat and pat[0] == "mut":
+                pat = pat[1:]
+            if len(pat) != 1 or not re.fullmatch(r"[A-Za-z_][A-Za-z0-9_]*", pat[0]):
+                raise SkeletonError("%s: unsupported binding pattern `%s`" % (where, " ".join(pat)))
+            name = pat[0]
+            if name == "_":
+                return e_tok + 2, True                               # dropped at the `;`
+            close = body.enclosing_close(e_tok + 1)
+            for k in range(e_tok + 2, min(close, len(body.toks))):
+                if body.toks[k][0] == "id" and body.toks[k][1] == name and \
+                        body.t(k - 1) in ("(", ",", "=", ":", "{", "=>", "return", "break") and \
+                        body.t(k + 1) in (")", ",", ";", "}") and not body.in_macro(k):
+                    return k, True                  # moved out: drop(g), f(g, ..), let h = g; S { f: g } ...
+            return close, True
+        return body.stmt_end(e_tok + 1, arm), True
+    if head in ("if", "while"):
+        ob = body.header_end(st)
+        if ob is None or ob < e_tok:
+            raise SkeletonError("%s: lock in a `%s` header without a block" % (where, head))
+        if body.t(st + 1) == "let":
+            return (body.chain_end(ob) if head == "if" else body.match[ob]), True
+        return ob, False                                             # end of the condition, before the block
+    if head in ("match", "for"):
+        ob = body.header_end(st)
+        if ob is None or ob < e_tok:
+            raise SkeletonError("%s: lock in a `%s` header without a block" % (where, head))
+        return body.match[ob], True
+    return body.stmt_end(e_tok + 1, arm), True
+
+
+def callee_at(body, i):
+    """text of the callee if token i is the `(` of a call / the opener of a macro invocation, else None"""
+    if not (body.toks[i][0] == "op" and body.toks[i][1] in ("(", "[", "{")):
+        return None
+    j = i - 1
+    macro = False
+    if body.is_op(j, "!") and j >= 1 and body.toks[j - 1][0] == "id" and body.toks[j - 1][1] not in KEYWORDS:
+        macro = True
+        j -= 1
+    elif not body.is_op(i, "("):
+        return None
+    if j < 0 or body.toks[j][0] != "id" or body.toks[j][1] in KEYWORDS:
+        return None
+    k = j
+    while k - 2 >= 0 and body.toks[k - 1][0] == "op" and body.toks[k - 1][1] in (".", "::") and \
+            body.toks[k - 2][0] == "id" and body.toks[k - 2][1] not in KEYWORDS:
+        k -= 2
+    if k - 1 >= 0 and body.is_op(k - 1, "."):
+        k -= 1                                                       # method on a call result: `.exists`
+    return body.canon(k, j + 1) + ("!" if macro else "")
+
+
+def extract(body, spec, oneof, opts, where):
+    found, conds, spans = [], [], []
+    names = [m for m, _ in spec]
     for marker, count in spec:
-        rx = M[marker]
-        hits = list(re.finditer(rx, body))
-        n = len(hits)
+        if is_block(marker):
+            hits = block_hits(body, marker)
+            n = len(hits)
+        else:
+            hits = list(re.finditer(M[marker], body.text))
+            n = len(hits)
         bad = (count == "1" and n != 1) or (count == "+" and n < 1) or (count == "?" and n > 1)
         if bad:
-            raise SkeletonError("%s: marker %s expected %s time(s), found %d (regex %s)" % (
-                where, marker, {"1": "exactly 1", "+": "at least 1", "?": "at most 1"}[count], n, rx))
+            raise SkeletonError("%s: marker %s expected %s time(s), found %d (%s)" % (
+                where, marker, {"1": "exactly 1", "+": "at least 1", "?": "at most 1"}[count], n, M[marker]))
         for h in hits:
-            found.append((h.start(), 0, marker))
-            if rx.endswith(r"\{"):
-                found.append((block_from(body, h.end() - 1), 1, end_name(marker)))
+            if is_block(marker):
+                kw, ob = h
+                found.append((kw, START, 0, marker))
+                found.append((body.match[ob], END, 0, end_name(marker)))
+                conds.append((kw, marker, split_header(body, kw + 1, ob)))
+                continue
+            s_tok, e_tok = body.tok_at(h.start()), body.tok_at(h.end() - 1)
+            if body.offs[s_tok] != h.start() or body.offs[e_tok] + len(rustlex.canon([body.toks[e_tok]])[0]) != h.end():
+                raise SkeletonError("%s: marker %s matches inside a token (%r)" % (where, marker, h.group(0)))
+            found.append((s_tok, START, 0, marker))
+            spans.append((s_tok, e_tok))
+            if marker in GUARDS:
+                r_tok, before = guard_release(body, marker, s_tok, e_tok)
+                found.append((r_tok, RELEASE if before else START, -s_tok, GUARDS[marker]))
     for group in oneof:
-        present = [g for g in group if any(f[2] == g for f in found)]
+        present = [g for g in group if any(f[3] == g for f in found)]
         if len(present) != 1:
             raise SkeletonError("%s: exactly one of %s expected, found %s" % (where, list(group), present))
-    found.sort()
-    return [f[2] for f in found]
+    others = []
+    until = opts.get("strict_until")
+    if until:
+        stops = [f[0] for f in found if f[3] == until]
+        stop = min(stops) if stops else len(body.toks)
+        for i in range(stop):
+            c = callee_at(body, i)
+            if c is None or c in FREE_CALLS:
+                continue
+            if any(a <= i - 1 <= b or a <= i <= b for a, b in spans):
+                continue                                             # part of a matched marker
+            found.append((i, START, 0, "otherCall"))
+            others.append(c)
+    found.sort(key=lambda f: (f[0], f[1], f[2]))
+    conds.sort()
+    return [f[3] for f in found], [(m, c) for _, m, c in conds], (others if until else None)
+
+
+def lstr(s):
+    return '"' + s.replace("\\", "\\\\").replace('"', '\\"') + '"'
+
+
+def wrap(items, indent="  ", width=98):
+    lines, cur = [], indent + "["
+    for i, piece in enumerate(items):
+        piece = piece + (", " if i + 1 < len(items) else "")
+        if len(cur) + len(piece) > width and cur.strip() not in ("[", ""):
+            lines.append(cur.rstrip())
+            cur = indent + " "
+        cur += piece
+    lines.append(cur + "]")
+    return "\n".join(lines)
 
 
 def write_if_changed(path, text):
@@ -296,38 +749,52 @@ def write_if_changed(path, text):
             return
     except FileNotFoundError:
         pass
-    with open(path, "w") as f:
+    tmp = path + ".tmp%d" % os.getpid()
+    with open(tmp, "w") as f:
         f.write(text)
+    os.replace(tmp, path)
 
 
 def main():
     srcs = {}
     vocab = []
-    for name, rx in M.items():
+    for name in M:
         vocab.append(name)
-        if rx.endswith(r"\{"):
+        if M[name] is not None and is_block(name):
             vocab.append(end_name(name))
+        if name in GUARDS:
+            vocab.append(GUARDS[name])
+    if len(set(vocab)) != len(vocab):
+        raise SkeletonError("duplicate marker names in the vocabulary")
     defs = []
     total = 0
-    for lean, f, impl, fn, spec, oneof in FUNCS:
+    for lean, f, impl, fn, spec, oneof, opts in FUNCS:
         if f not in srcs:
             with open(os.path.join(REPO, f)) as fh:
-                srcs[f] = normalise(fh.read())
+                try:
+                    srcs[f] = rustlex.lex(fh.read())
+                    rustlex.check_balanced(srcs[f], f)
+                except rustlex.LexError as e:
+                    raise SkeletonError("%s: %s" % (f, e))
         where = "%s %s::%s" % (f, impl, fn)
-        body = fn_body(srcs[f], impl, fn)
-        markers = extract(body, spec, oneof, where)
+        body = Body(fn_body(srcs[f], f, impl, fn), where)
+        markers, conds, others = extract(body, spec, oneof, opts, where)
         total += len(markers)
-        lines, cur = [], "  ["
-        for i, m in enumerate(markers):
-            piece = "." + m + (", " if i + 1 < len(markers) else "")
-            if len(cur) + len(piece) > 98:
-                lines.append(cur.rstrip())
-                cur = "   "
-            cur += piece
-        lines.append(cur + "]")
-        defs.append("/-- %s: `%s::%s` -/\ndef %s : List Marker :=\n%s" % (f, impl, fn, lean, "\n".join(lines)))
-    hdr = ("-- GENERATED by tools/skeleton.py from /repo/src/{db,log}.rs on every check run. Do not edit.\n"
-           "-- Order of the protocol-carrying calls per function (fixed marker vocabulary, source order).\n"
+        defs.append("/-- %s: `%s::%s` -/\ndef %s : List Marker :=\n%s" % (
+            f, impl, fn, lean, wrap(["." + m for m in markers])))
+        if conds:
+            rows = ["(.%s, [%s])" % (m, ", ".join("[" + ", ".join(lstr(x) for x in conj) + "]" for conj in c))
+                    for m, c in conds]
+            defs.append("/-- %s: `%s::%s`: the complete headers of its block markers, in source order "
+                        "(split at top-level `||`, then `&&`) -/\ndef %s_conds : List (Marker × List (List String)) :=\n  [%s]"
+                        % (f, impl, fn, lean, ",\n   ".join(rows)))
+        if others is not None:
+            defs.append("/-- %s: `%s::%s`: calls before `%s` that are neither part of a marker nor known to leave "
+                        "the database directory alone (each is an `otherCall` marker above) -/\n"
+                        "def %s_otherCalls : List String :=\n  [%s]"
+                        % (f, impl, fn, opts["strict_until"], lean, ", ".join(lstr(x) for x in others)))
+    hdr = ("-- GENERATED by tools/skeleton.py from /repo/src/{db,log,options}.rs on every check run. Do not edit.\n"
+           "-- Order and scopes of the protocol-carrying calls per function (fixed marker vocabulary, source order).\n"
            "namespace Pdb.Gen.Order\n\n")
     ind = "inductive Marker where\n" + "\n".join("  | " + v for v in vocab) + "\nderiving DecidableEq, Repr\n\n"
     os.makedirs(OUT, exist_ok=True)
@@ -340,4 +807,7 @@ if __name__ == "__main__":
         main()
     except SkeletonError as e:
         print("skeleton: SKELETON-ERROR: %s" % e)
+        sys.exit(2)
+    except (OSError, IndexError, KeyError, ValueError, AttributeError, re.error) as e:
+        print("skeleton: SKELETON-ERROR: %s: %s" % (type(e).__name__, e))
         sys.exit(2)
